@@ -16,11 +16,13 @@ import hashlib
 import json
 import os
 import re
+import threading
 from concurrent.futures import ThreadPoolExecutor
 
 import vlib
 
 LEVEL = "model_checking"
+LOCK = threading.Lock()       # shards are validated in parallel threads; classification is serialised
 SECRING = os.path.join(vlib.REPO, "pkg/jsonsign/testdata/test-secring.gpg")
 TCFG = "Trace_Paging.cfg"
 PRE1970 = {"pre1970", "presub", "span1970", "mixed"}
@@ -54,7 +56,8 @@ def validate(ctx, tracefile, cases, leg):
         if ev["ev"] == "pages" and len(ev["pages"]) > 6:
             shown["pages"] = ev["pages"][:6] + ["... %d pages" % len(ev["pages"])]
         what = "%s ; full ordered list (ranks) %s ; time class %s, %d permanodes" % (json.dumps(shown, sort_keys=True), full[:200], tclass, case.get("n", 0))
-        ctx.discrepancy(sig, what[:900], {"property": "C09", "leg": case.get("leg", leg), "signature": sig, "case": case, "event": ev})
+        with LOCK:
+            ctx.discrepancy(sig, what[:900], {"property": "C09", "leg": case.get("leg", leg), "signature": sig, "case": case, "event": ev})
     return nworlds, len(evs) - nworlds, drift
 
 
@@ -88,22 +91,11 @@ def run_cases(ctx, drv, cases, tag, shards):
 
 
 def negative_samples(ctx, tracefile):
-    """Binding self-test: corrupt one field of a real trace; exactly that line must be rejected."""
+    """Binding self-test: corrupt one field of a real, accepted trace line; exactly that line must be rejected."""
     evs = vlib.read_ndjson(tracefile)
-    # the first world that has a two-page paging and a two-element window
     starts = [i for i, e in enumerate(evs) if e["ev"] == "world"] + [len(evs)]
-    for a, b in zip(starts, starts[1:]):
-        seg = evs[a:b]
-        if any(e["ev"] == "pages" and len(e["pages"]) >= 2 and len(e["pages"][0]) >= 1 for e in seg) and \
-           any(e["ev"] == "around" and len(e["out"]) >= 2 for e in seg):
-            break
-    else:
-        raise vlib.MachineryError("negative samples: no suitable world in %s" % tracefile)
-    good = ctx.path("neg_base.ndjson")
-    vlib.write_jsonl(good, seg)
-    bad_before = set(l for l, _ in ctx.tlc_trace("Trace_Paging", TCFG, good)["viols"])
 
-    def swap_pages(e):       # move the first element of page 2 to page 1's end and vice versa: order broken, multiset intact
+    def swap_pages(e):       # last of page 1 <-> first of page 2: order broken, multiset intact
         e["pages"] = [list(p) for p in e["pages"]]
         e["pages"][0][-1], e["pages"][1][0] = e["pages"][1][0], e["pages"][0][-1]
 
@@ -111,33 +103,50 @@ def negative_samples(ctx, tracefile):
         e["pages"] = [list(p) for p in e["pages"]]
         e["pages"][0] = e["pages"][0][1:]
 
-    def gap(e):              # window loses its pivot-side contiguity: replace the element next to the pivot by a foreign rank
+    def gap(e):              # the window is no longer a contiguous piece of the list: a foreign rank next to the pivot
         out = list(e["out"])
-        k = 0 if out[0] != e["pivot"] else len(out) - 1
-        out[k] = 1
+        out[0 if out[0] != e["pivot"] else len(out) - 1] = 1
         e["out"] = out
-    n = 0
-    for name, pred, mutate in (
-            ("swap", lambda e: e["ev"] == "pages" and len(e["pages"]) >= 2 and e["pages"][0] and e["pages"][1] and e["pages"][0][-1] != e["pages"][1][0], swap_pages),
-            ("skip", lambda e: e["ev"] == "pages" and len(e["pages"]) >= 2 and e["pages"][0], drop_one),
-            ("gap", lambda e: e["ev"] == "around" and len(e["out"]) >= 2, gap)):
-        k = next((i for i, e in enumerate(seg) if (i + 1) not in bad_before and pred(e)), None)
-        if k is None:
+    kinds = (("swap", lambda e: e["ev"] == "pages" and len(e["pages"]) >= 2 and e["pages"][0] and e["pages"][1] and e["pages"][0][-1] != e["pages"][1][0], swap_pages),
+             ("skip", lambda e: e["ev"] == "pages" and len(e["pages"]) >= 2 and e["pages"][0], drop_one),
+             ("gap", lambda e: e["ev"] == "around" and len(e["out"]) >= 2, gap))
+    done = set()
+    tried = 0
+    for a, b in zip(starts, starts[1:]):
+        seg = evs[a:b]
+        if len(done) == len(kinds) or tried >= 6:
+            break
+        if not all(any(pred(e) for e in seg) for _, pred, _ in kinds):
             continue
-        bad = [dict(e) for e in seg]
-        mutate(bad[k])
-        bf = ctx.path("neg_%s.ndjson" % name)
-        vlib.write_jsonl(bf, bad)
-        r = ctx.tlc_trace("Trace_Paging", TCFG, bf)
-        if (k + 1) not in set(l for l, _ in r["viols"]):
-            raise vlib.MachineryError("negative sample (%s, line %d) was accepted: the trace spec does not bind" % (name, k + 1))
-        n += 1
-    if n < 2:
-        raise vlib.MachineryError("negative samples: only %d corruptions could be applied" % n)
-    ctx.count("T", negative_samples_rejected=n)
+        tried += 1
+        good = ctx.path("neg_base.ndjson")
+        vlib.write_jsonl(good, seg)
+        bad_before = set(l for l, _ in ctx.tlc_trace("Trace_Paging", TCFG, good)["viols"])
+        for name, pred, mutate in kinds:
+            if name in done:
+                continue
+            k = next((i for i, e in enumerate(seg) if (i + 1) not in bad_before and pred(e)), None)
+            if k is None:
+                continue
+            bad = [dict(e) for e in seg]
+            mutate(bad[k])
+            bf = ctx.path("neg_%s.ndjson" % name)
+            vlib.write_jsonl(bf, bad)
+            r = ctx.tlc_trace("Trace_Paging", TCFG, bf)
+            if (k + 1) not in set(l for l, _ in r["viols"]):
+                raise vlib.MachineryError("negative sample (%s, line %d) was accepted: the trace spec does not bind" % (name, k + 1))
+            done.add(name)
+    if len(done) < 2:
+        if ctx.violations or ctx.known_seen:
+            ctx.notes.append("negative samples: only %d corruptions could be applied to lines that were accepted (the run has discrepancies)" % len(done))
+        else:
+            raise vlib.MachineryError("negative samples: only %d corruptions could be applied" % len(done))
+    ctx.count("T", negative_samples_rejected=len(done))
 
 
 def run(ctx, replay):
+    # many small TLC processes run side by side: keep each JVM small
+    os.environ.setdefault("JAVA_TOOL_OPTIONS", "-Xmx3g -XX:ParallelGCThreads=2 -XX:CICompilerCount=2")
     drv = ctx.build("c09")
     quick = ctx.quick()
     if replay:
